@@ -64,7 +64,7 @@ def counts(r, *names):
 def gen_params(tier, seed):
     rnd = random.Random(seed)
     if tier == "quick":
-        nsample, nshards, b2 = 1500, 1, SMALL
+        nsample, nshards, b2 = 1500, 2, SMALL
     else:
         nsample, nshards, b2 = 20000, 8, FULL
     sample = [[rnd.randrange(1 << 20) for _ in range(rnd.choice((2, 3, 3)))] for _ in range(nsample)]
@@ -91,7 +91,7 @@ def judge(cases, obs, work, tag):
     vlib.write_ndjson(cf, cases)
     vlib.write_ndjson(of, obs)
     r = tlc_mode("judge", {"CASES": cf, "OBS": of, "OUT": bf})
-    c = counts(r, "JUDGED", "OPEN", "INVALID", "BOUNDARY", "UBOUNDARY", "BAD")
+    c = counts(r, "JUDGED", "PAIRS", "OPEN", "INVALID", "BOUNDARY", "BAD")
     bad = vlib.read_ndjson(bf)
     if len(bad) != c["BAD"]:
         raise vlib.InfraError("LibValid.tla verdict/output mismatch")
@@ -103,7 +103,8 @@ def valid_part(tier, seed, work, exe, cases_override=None):
     if cases_override is None:
         params = gen_params(tier, seed)
         pf = os.path.join(work, "params-laws.json")
-        vlib.write_ndjson(pf, [dict(params, shard=0, sample=[])])
+        # the laws quantify over pairs of items x arguments: the smaller bound set in quick, the full one in thorough
+        vlib.write_ndjson(pf, [dict(params, shard=0, sample=[], bounds=params["bounds2"] if tier == "quick" else FULL)])
         t1 = time.time()
         with concurrent.futures.ThreadPoolExecutor(max_workers=2) as ex0:
             fl = ex0.submit(tlc_mode, "laws", {"PARAMS": pf})
@@ -127,12 +128,9 @@ def valid_part(tier, seed, work, exe, cases_override=None):
         sub = os.path.join(work, "s%d" % k)
         os.makedirs(sub, exist_ok=True)
         eobs, n = libvalid.run_e2e(cases, sub, jobs=2)
-        allc, allo = [], []
-        for binding, o in (("unit", obs), ("e2e-lit", eobs["lit"]), ("e2e-var", eobs["var"])):
-            allc += [dict(c, binding=binding) for c in cases]
-            allo += o
+        allo = [{"id": c["id"], "unit": o["got"], "lit": l["got"], "var": v["got"]} for c, o, l, v in zip(cases, obs, eobs["lit"], eobs["var"])]
         t3 = time.time()
-        res = judge(allc, allo, work, "j%d" % k)
+        res = judge(cases, allo, work, "j%d" % k)
         steps.append({"shard": k, "unit_s": round(t2 - t1, 1), "e2e_s": round(t3 - t2, 1), "judge_s": round(time.time() - t3, 1)})
         return res, n
     with concurrent.futures.ThreadPoolExecutor(max_workers=4) as ex:
@@ -317,7 +315,7 @@ def main(tier, seed, replay=None):
     evaluations = u.get("JUDGED", 0) + fc["JUDGED"] + lc["JUDGED"]
     cov = {
         "evaluations": evaluations,
-        "distinct_nontrivial": u.get("UBOUNDARY", 0) + fc["EXPECTING"] + lc["REJECTED"],
+        "distinct_nontrivial": u.get("BOUNDARY", 0) + fc["EXPECTING"] + lc["REJECTED"],
         "rule": "distinct (expression, constant) pairs whose constant is a bound of the expression or 0.1 beside it (counted by TLC, "
                 "expressions are distinct by construction) + not-null/not-bool cases in which a finding is required + configuration texts "
                 "that the loader rejected",
@@ -326,7 +324,7 @@ def main(tier, seed, replay=None):
                              % (FULL, SMALL if tier == "quick" else FULL),
         "samples": samples,
         "valid": vcov, "flags": fc, "load": lc, "phase_wall_s": {"valid": round(t_valid, 1), "flags": round(t_flags, 1), "load": round(t_load, 1)},
-        "open_not_judged_all_bindings": u.get("OPEN", 0),
+        "open_not_judged": u.get("OPEN", 0),
         "model_disagreement": fc["DISAGREE"],
         "deviation_shapes": {k: v["n"] for k, v in shapes.items()},
     }
